@@ -150,6 +150,7 @@ func (c *ctx) processPre(in input, src, name, class string, kf []string, setup f
 		obs["why"] = why
 	}
 	var tr *tracer
+	wrong := ""
 	var ids []int
 	var per map[int][][2]int
 	total := 0
@@ -201,9 +202,9 @@ func (c *ctx) processPre(in input, src, name, class string, kf []string, setup f
 			if res.Err != "" || strings.Join(res.Results, ",") != strings.Join(c.expect, ",") {
 				obs["expected"] = c.expect
 				obs["run_error"] = res.Err
-				id := c.w.Add(lib.Case{Coq: dummy, Input: in, Observed: obs, KF: kf, Class: class + "/wrong-result"})
-				c.w.GoFail(id, fmt.Sprintf("compiled code around a multi-word group computed a wrong result: got %v (%s), want %v", res.Results, trunc(res.Err, 80), c.expect))
-				return
+				// reported below, on the case that also carries the prototype (so that wf_proto's verdict
+				// on the same chunk is in the evidence too)
+				wrong = fmt.Sprintf("compiled code computed a wrong result: got %v (%s), want %v", res.Results, trunc(res.Err, 80), c.expect)
 			}
 		}
 		ids, per, total = tr.grouped()
@@ -211,9 +212,14 @@ func (c *ctx) processPre(in input, src, name, class string, kf []string, setup f
 	if (root.maxInsts() > coqMaxFn || root.totalInsts() > coqMaxTotal) && !(c.forceCoq && root.maxInsts() <= 30000) {
 		// too large for coqc: the Go port decides (it is cross-checked with wf_proto on every smaller case)
 		c.goOnly++
-		if !gowf {
+		if !gowf || wrong != "" {
 			id := c.w.Add(lib.Case{Coq: dummy, Input: in, Observed: obs, KF: kf, Class: class + "/go-only"})
-			c.w.GoFail(id, "prototype too large for coqc and the Go port of wf_proto rejects it: "+strings.Join(why, "; "))
+			if !gowf {
+				c.w.GoFail(id, "prototype too large for coqc and the Go port of wf_proto rejects it: "+strings.Join(why, "; "))
+			}
+			if wrong != "" {
+				c.w.GoFail(id, wrong)
+			}
 		}
 		return
 	}
@@ -241,7 +247,10 @@ func (c *ctx) processPre(in input, src, name, class string, kf []string, setup f
 		}
 	}
 	sb.WriteString("]")
-	c.w.Add(lib.Case{Coq: sb.String(), Input: in, Observed: obs, KF: kf, Nontrivial: nontrivialProto(root), Class: class})
+	id := c.w.Add(lib.Case{Coq: sb.String(), Input: in, Observed: obs, KF: kf, Nontrivial: nontrivialProto(root), Class: class})
+	if wrong != "" {
+		c.w.GoFail(id, wrong)
+	}
 }
 
 // goDigest folds Go's own decoding (opGetOpCode/opGetArg* through the hook) of every instruction.
